@@ -744,6 +744,8 @@ func init() {
 			ruleOverlayKey(c)
 			// a value handed to Marshal by value reaches the codec as a pointer to the value for every accepted type
 			ruleEfaceDirect(c)
+			// an option the tag spells out is looked up as written: nothing of the tag text is dropped
+			ruleTagExact(c)
 			ruleReflectPre(c)
 		},
 	})
